@@ -285,32 +285,68 @@ def mk_class(desc, classes):
     return cls
 
 
-def to_py(fd, v, classes):
+def _name_rep(v, rep):
+    """0 list of bytes | 1..6 as pkt.name_in_rep | 7 tuple of bytes | 8 generator | 9 tuple of memoryviews | 10 tuple with a URI component"""
+    if rep == 0:
+        return S.name_comps(v)
+    if rep <= 6:
+        from .. import pkt as P
+        return P.name_in_rep(v, rep)
+    comps = S.name_comps(v)
+    if rep == 7:
+        return tuple(comps)
+    if rep == 8:
+        return (c for c in comps)
+    if rep == 9:
+        return tuple(memoryview(c) for c in comps)
+    from .. import pkt as P
+    return tuple(P.name_in_rep(v, 4))
+
+
+def to_py(fd, v, classes, name_rep=0):
     k = fd['k']
     if k == 'rep':
-        return [to_py(fd['e'], x, classes) for x in (v or [])]
+        return [to_py(fd['e'], x, classes, name_rep) for x in (v or [])]
     if k == 'map':
-        return {to_py(fd['key'], kk, classes): to_py(fd['val'], vv, classes) for kk, vv in (v or [])}
+        # (keys stay hashable: Name keys are not generated; values follow the representation)
+        return {to_py(fd['key'], kk, classes): to_py(fd['val'], vv, classes, name_rep) for kk, vv in (v or [])}
     if v is None:
         return None
     if k == 'bytes':
         return _bytes_of(v)
     if k == 'name':
-        return S.name_comps(v)
+        return _name_rep(v, name_rep)
     if k == 'model':
-        return mk_instance(fd['m'], v, classes)
+        return mk_instance(fd['m'], v, classes, name_rep=name_rep)
     return v
 
 
-def mk_instance(desc, vals, classes, cls=None):
+def mk_instance(desc, vals, classes, cls=None, name_rep=0):
     cls = cls or mk_class(desc, classes)
     obj = cls()
     for fd in desc['fields']:
         v = vals.get(fd['n'])
         if v == '__unset__':
             continue                                      # never assigned: the declared default applies
-        setattr(obj, fd['n'], to_py(fd, v, classes))     # explicit None too (constructors may install defaults)
+        setattr(obj, fd['n'], to_py(fd, v, classes, name_rep))     # explicit None too (constructors may install defaults)
     return obj
+
+
+def _has_name(desc, vals):
+    def f(fd, v):
+        k = fd['k']
+        if v is None or v == '__unset__':
+            return False
+        if k == 'name':
+            return True
+        if k == 'rep':
+            return any(f(fd['e'], x) for x in v)
+        if k == 'map':
+            return any(f(fd['val'], vv) for _kk, vv in v)
+        if k == 'model':
+            return _has_name(fd['m'], v)
+        return False
+    return any(f(fd, vals.get(fd['n'])) for fd in desc['fields'])
 
 
 def norm_py(fd, pv):
@@ -528,6 +564,32 @@ def check_model(r, tag, desc, vals, cls, classes, salt=0, do_insert=True):
         T.walk(wire)
     except T.Malformed as e:
         r.bad(f'C08/{tag}/wire-malformed', str(e))
+    # ---- the documented encode(wire=, offset=) form: into a caller's (re-used, not zeroed) buffer ------------------------------
+    k = salt % 4
+    buf = bytearray(b'\xaa' * (k + len(expected) + 2))
+    try:
+        ret = obj.encode(buf, k)
+    except Exception as e:
+        r.bad(f'C08/{tag}/encode-into-buffer-raised/{type(e).__name__}', repr(e)[:200])
+        return
+    if bytes(buf[k:k + len(expected)]) != expected or bytes(buf[:k]) != b'\xaa' * k or bytes(buf[k + len(expected):]) != b'\xaa\xaa':
+        i = next((i for i, (a, b) in enumerate(zip(buf[k:], expected)) if a != b), len(expected))
+        r.bad(f'C08/{tag}/encode-into-buffer-differs', f'offset {k}: first diff at {i}: {bytes(buf[k + max(0, i - 4):k + i + 8]).hex()} vs '
+              f'{expected[max(0, i - 4):i + 8].hex()}')
+        return
+    # ---- Name fields assigned in the other legal representations (tuple / generator / URI / encoded / mixed) ------------------
+    if salt % 3 == 0 and _has_name(desc, vals):
+        for rep in range(1, 11):
+            try:
+                o2 = mk_instance(desc, vals, classes, cls, name_rep=rep)
+                n2 = o2.encoded_length() if rep != 8 else len(expected)     # (a generator can be consumed by one pass only)
+                w2 = bytes(o2.encode())
+            except Exception as e:
+                r.bad(f'C08/{tag}/name-representation/encode-raised/{type(e).__name__}/rep{rep}', repr(e)[:200])
+                return
+            if w2 != expected or n2 != len(expected):
+                r.bad(f'C08/{tag}/name-representation/wire-differs/rep{rep}', f'announced {n2}, {w2.hex()[:100]} vs {expected.hex()[:100]}')
+                return
     want = {fd['n']: norm_json(fd, vals.get(fd['n'])) for fd in desc['fields']}
 
     def decode_equal(w, what):
